@@ -109,8 +109,8 @@ def run_workflow(ctx, case, via, index):
             os.remove(f)
     steps = [
         ['load', db, '-p', paths[0], '-e', paths[1], '-z', paths[2], '--timezone', case.get('tz', 'UTC')],
-        ['classify', db, '-s', repr(float(case['sthr'])), '-j', repr(float(case['jthr']))],
-        ['set-zeta-grid', db, '-d', repr(float(case['grid_step']))],
+        ['classify', db, '-s', data.num_arg(case['sthr'], index), '-j', data.num_arg(case['jthr'], index + 1)],
+        ['set-zeta-grid', db, '-d', data.num_arg(case['grid_step'], index + 2)],
         ['rise', db],
         ['recession', db],
     ]
